@@ -1,3 +1,4 @@
+import Fpdec.Kernels.Rem
 import Fpdec.Lemmas.Rem
 import Fpdec.Props.C10_Sites
 
@@ -51,5 +52,15 @@ theorem tmod_is_the_remainder (A B r : Int) (hB : B ≠ 0) :
 /-! ### non-vacuity -/
 example : remCore (-25) 1 7 0 = .ok (some ⟨-25, 1⟩) ∧ remCore I128_MAX 0 3 18 = .ok (some ⟨1, 18⟩) := by decide
 example : remCore (I128_MAX / 3) 1 (I128_MAX / 5) 3 = .ok none := by decide   -- the permitted overflow (repo test test_rem_panic_ovfl)
+
+/-! ### translated kernels
+The Lean definitions `Gen.K.*` are regenerated from the Rust source on every run by `tools/fpkernels.py` (expression-level
+translation).  These theorems tie them to the hand-written model the property theorems above are about: a change of the Rust
+kernel that changes its translation breaks them. -/
+/-- `fn rem` of src/binops/rem.rs (all three scale cases and the digit loop with its early `Err`) -/
+theorem kernel_rem (prof : Profile) (a : Int) (p : Nat) (b : Int) (q : Nat) (hp : p < 256) (hq : q < 256) :
+    Gen.K.rem prof a p b q = Kernels.remResult <$> remCore a p b q := Kernels.rem_eq prof a p b q hp hq
+theorem kernel_checked_mul_pow_ten (prof : Profile) (val : Int) (n : Nat) :
+    Gen.K.checked_mul_pow_ten prof val n = .ok (checkedMulPowTen val n) := Kernels.checked_mul_pow_ten_eq prof val n
 
 end Fpdec.Props.C10
